@@ -14,6 +14,13 @@ import (
 // the states reflect.DeepEqual. Go randomises map iteration per range
 // statement, so a dependence on map order makes replicas disagree with
 // substantial probability whenever the dependent branch runs.
+// chain ids: the harness default (no override), the deployed networks named in app/forks.go, and
+// neighbours of those (later revisions of the same network, a different network with the same number)
+var c09ChainIDs = []string{
+	"", "", "", "shutter-gnosis-1000", "shutter-chiado-102000", "shutter-api-gnosis-1001", "shutter-service-chiado-1000",
+	"shutter-api-gnosis-1002", "shutter-api-gnosis-1003", "shutter-api-gnosis-1010", "shutter-gnosis-1001", "shutter-chiado-102001", "shutter-api-chiado-1002",
+}
+
 func TestC09_Replicas(t *testing.T) {
 	rec := recorder("C09")
 	rec.AddRule("rapid state machine over shuttermint call histories (apphist generator: 1-5 genesis keypers, all thresholds, votes on pooled candidate configurations, DKG result votes, check-ins, block-seen, DKG messages, replays, garbage, CheckTx interleaved) executed on 4 replicas, in half of the cases with state files and a different save schedule per replica and replicas that are stopped and continued from their state file; non-trivial = history in which some tally had two values at or over the threshold when consulted (order-sensitive decision exercised) or a configuration was accepted after a vote split; distinct by canonical history string")
@@ -22,6 +29,9 @@ func TestC09_Replicas(t *testing.T) {
 	persistDir := t.TempDir()
 	runRapid(t, N(1200, 200000), func(rt *rapid.T) {
 		g := genGenesis(rt)
+		// the chain id is part of the genesis and selects fork overrides compiled into the application:
+		// take the ids of the deployed networks (and ids next to them) as well
+		g.ChainID = rapid.SampledFrom(c09ChainIDs).Draw(rt, "chainID")
 		c := NewChain(g, 4, func(sig, f string, a ...any) { fatalf(rt, sig, f, a...) })
 		c.CheckReplicas = true
 		persisting := rapid.Bool().Draw(rt, "persisting")
@@ -67,6 +77,9 @@ func TestC09_Replicas(t *testing.T) {
 		}
 		if c.Restarts > 0 {
 			labels = append(labels, "replica-restarted")
+		}
+		if g.ChainID != "" {
+			labels = append(labels, "chain-id-of-a-deployed-network-or-next-to-one")
 		}
 		rec.Case(c.DescString(), nt, labels...)
 		rec.LabelN("order-sensitive-decisions", c.M.SplitTally)
